@@ -14,4 +14,4 @@ mkdir -p "$VR" && rsync -a --exclude .build --exclude .git --exclude replays /ve
 export VERIF_ROOT="$VR" REPO_ROOT="$WT"
 (cd "$VR" && bash bin/verif check "$ID" --tier "$TIER") > /tmp/try_iso.$TAG.out 2>/tmp/try_iso.$TAG.err; rc=$?
 echo "exit=$rc"; grep -c '^VIOLATION' /tmp/try_iso.$TAG.out; grep 'violation' /tmp/try_iso.$TAG.err | head -4 | cut -c1-400
-rm -f /tmp/try_iso.$TAG.out /tmp/try_iso.$TAG.err
+grep -h "HARNESS" /tmp/try_iso.$TAG.err | head -3 | cut -c1-400; rm -f /tmp/try_iso.$TAG.out /tmp/try_iso.$TAG.err
